@@ -4,9 +4,15 @@
 //   mtool liar   --payload F --variant honest|truncated|extended|other|empty|otherchunk --uri-out F [--relay host:port] [--seconds N]
 //        starts a real Node (transport on an ephemeral port) holding the payload, then replaces the stored
 //        ciphertext according to the variant; writes a manifest whose only discovery path is this node.
+//   mtool peer   --port P --peer-id HEX64 --identity-seed N --seconds S --seed R
+//        a real Node that handshakes with a running daemon (identity known from its flags), keeps a transport
+//        session to it and announces / pushes / requests / acknowledges until the time is up; prints counters.
 #include <unistd.h>
 
+#include <signal.h>
+
 #include <chrono>
+#include <random>
 #include <cstring>
 #include <fstream>
 #include <iostream>
@@ -49,7 +55,8 @@ int main(int argc, char** argv) {
     const std::string cmd = argv[1];
     std::string payload_path, uri_out, cipher_out, filename_hex, variant = "honest", relay;
     std::vector<std::string> hints, fallbacks;
-    long ttl = 600, bits = 0, seconds_alive = 60;
+    long ttl = 600, bits = 0, seconds_alive = 60, port = 0, identity_seed = 0, rseed = 1;
+    std::string peer_hex;
     bool expired = false, has_filename = false;
     for (int i = 2; i < argc; ++i) {
         const std::string a = argv[i];
@@ -66,6 +73,94 @@ int main(int argc, char** argv) {
         else if (a == "--variant") variant = next();
         else if (a == "--relay") relay = next();
         else if (a == "--seconds") seconds_alive = std::stol(next());
+        else if (a == "--port") port = std::stol(next());
+        else if (a == "--peer-id") peer_hex = next();
+        else if (a == "--identity-seed") identity_seed = std::stol(next());
+        else if (a == "--seed") rseed = std::stol(next());
+    }
+    if (cmd == "peer") {
+        signal(SIGPIPE, SIG_IGN);
+        std::clog.setstate(std::ios::failbit);
+        std::mt19937_64 rng(static_cast<std::uint64_t>(rseed));
+        auto rnd_bytes = [&](std::size_t n) { std::vector<std::uint8_t> v(n); for (auto& b : v) b = static_cast<std::uint8_t>(rng()); return v; };
+        PeerId did{};
+        for (std::size_t i = 0; i < 32 && 2 * i + 1 < peer_hex.size(); ++i) did[i] = static_cast<std::uint8_t>(std::stoi(peer_hex.substr(2 * i, 2), nullptr, 16));
+        {
+            Config dc{};
+            dc.identity_seed = static_cast<std::uint32_t>(identity_seed);
+            dc.nat_stun_enabled = false;
+            dc.relay_enabled = false;
+            Node shadow(did, dc);   // same seed -> same public identity as the daemon
+            const auto pub = shadow.public_identity();
+            Config cfg{};
+            cfg.identity_seed = static_cast<std::uint32_t>(rng());
+            cfg.announce_pow_difficulty = 0;
+            cfg.nat_stun_enabled = false;
+            cfg.relay_enabled = false;
+            cfg.shard_threshold = 2;
+            cfg.shard_total = 3;
+            cfg.key_rotation_interval = std::chrono::seconds(3600);
+            PeerId pid{};
+            for (auto& b : pid) b = static_cast<std::uint8_t>(rng());
+            Node peer(pid, cfg);
+            peer.start_transport(0);
+            unsigned long ops = 0, handshakes = 0, connects = 0, announces = 0, pushes = 0;
+            std::vector<std::pair<ChunkId, std::string>> mine;
+            const auto t_end = std::chrono::steady_clock::now() + std::chrono::seconds(seconds_alive);
+            unsigned nchunk = 0;
+            while (std::chrono::steady_clock::now() < t_end) {
+                const auto k = rng() % 8;
+                if (k == 0 || !peer.sessions_.is_connected(did)) {
+                    // the nonce the daemon would present for us, computed by its identity clone
+                    const auto work = shadow.generate_handshake_work(pid);
+                    if (work && peer.perform_handshake(did, pub, *work)) ++handshakes;
+                    if (peer.connect_peer(did, "127.0.0.1", static_cast<std::uint16_t>(port))) ++connects;
+                } else if (const auto key = peer.session_key(did)) {
+                    protocol::Message m{};
+                    m.version = 4;
+                    if (k <= 3) {
+                        ChunkId cid{};
+                        for (auto& b : cid) b = static_cast<std::uint8_t>(rng());
+                        cid[1] = static_cast<std::uint8_t>(nchunk++);
+                        auto manifest = peer.store_chunk(cid, rnd_bytes(64), std::chrono::seconds(600));
+                        m.type = protocol::MessageType::Announce;
+                        protocol::AnnouncePayload ap{};
+                        ap.chunk_id = cid; ap.peer_id = peer.id(); ap.endpoint = "127.0.0.1:" + std::to_string(peer.transport_port()); ap.ttl = std::chrono::seconds(300);
+                        ap.manifest_uri = protocol::encode_manifest(manifest);
+                        if (rng() % 2) ap.assigned_shards = {manifest.shards[0].index};
+                        m.payload = ap;
+                        mine.emplace_back(cid, ap.manifest_uri);
+                        ++announces;
+                    } else if (k == 4 && !mine.empty()) {
+                        const auto& [cid, uri] = mine[rng() % mine.size()];
+                        const auto rec = peer.export_chunk_record(cid);
+                        if (!rec) continue;
+                        m.type = protocol::MessageType::Chunk;
+                        protocol::ChunkPayload cp{};
+                        cp.chunk_id = cid; cp.data = rec->data; cp.ttl = std::chrono::seconds(300);
+                        m.payload = cp;
+                        ++pushes;
+                    } else if (k == 5) {
+                        m.type = protocol::MessageType::Request;
+                        ChunkId cid{};
+                        cid.fill(0xCC);
+                        m.payload = protocol::RequestPayload{cid, peer.id()};
+                    } else {
+                        m.type = protocol::MessageType::Acknowledge;
+                        PeerId x{};
+                        for (auto& b : x) b = static_cast<std::uint8_t>(rng());
+                        m.payload = protocol::AcknowledgePayload{x, peer.id(), (rng() % 2) == 0};
+                    }
+                    peer.send_secure(did, protocol::encode_signed(m, *key));
+                }
+                ++ops;
+                std::this_thread::sleep_for(std::chrono::microseconds(200 + rng() % 3000));
+            }
+            std::cout << "PEER ops=" << ops << " handshakes=" << handshakes << " connects=" << connects << " announces=" << announces << " pushes=" << pushes << std::endl;
+            peer.stop_transport();
+            std::this_thread::sleep_for(std::chrono::milliseconds(300));
+            _exit(0);   // detached reader threads may still be finishing; object life-time at exit is not under test here
+        }
     }
     const auto payload = slurp(payload_path);
     if (cmd == "make") {
